@@ -155,6 +155,59 @@ def metadata_doc (leading : Str) (trailing : Str) (detached : List Str) : Str :=
   else
   (([] : Str))))
 
+-- gapic/schema/imp.py — Import.__str__
+def import_str (self_alias : Str) (self_module : Str) (self_package : List Str) : Str :=
+  let answer : Str := ((['i', 'm', 'p', 'o', 'r', 't', ' '] : Str) ++ self_module)
+  if (truthy self_package) then
+  (let answer : Str := ((['f', 'r', 'o', 'm', ' '] : Str) ++ (join (['.'] : Str) self_package) ++ ([' '] : Str) ++ answer)
+  if (truthy self_alias) then
+  (let answer : Str := (answer ++ (([' ', 'a', 's', ' '] : Str) ++ self_alias))
+  if ((endswith self_module (['_', 'p', 'b', '2'] : Str)) || (strIn (['a', 'p', 'i', '_', 'c', 'o', 'r', 'e'] : Str) self_package)) then
+  (let answer : Str := (answer ++ ([' ', ' ', '#', ' ', 't', 'y', 'p', 'e', ':', ' ', 'i', 'g', 'n', 'o', 'r', 'e'] : Str))
+  answer)
+  else
+  (answer))
+  else
+  (if ((endswith self_module (['_', 'p', 'b', '2'] : Str)) || (strIn (['a', 'p', 'i', '_', 'c', 'o', 'r', 'e'] : Str) self_package)) then
+  (let answer : Str := (answer ++ ([' ', ' ', '#', ' ', 't', 'y', 'p', 'e', ':', ' ', 'i', 'g', 'n', 'o', 'r', 'e'] : Str))
+  answer)
+  else
+  (answer)))
+  else
+  (if (truthy self_alias) then
+  (let answer : Str := (answer ++ (([' ', 'a', 's', ' '] : Str) ++ self_alias))
+  if ((endswith self_module (['_', 'p', 'b', '2'] : Str)) || (strIn (['a', 'p', 'i', '_', 'c', 'o', 'r', 'e'] : Str) self_package)) then
+  (let answer : Str := (answer ++ ([' ', ' ', '#', ' ', 't', 'y', 'p', 'e', ':', ' ', 'i', 'g', 'n', 'o', 'r', 'e'] : Str))
+  answer)
+  else
+  (answer))
+  else
+  (if ((endswith self_module (['_', 'p', 'b', '2'] : Str)) || (strIn (['a', 'p', 'i', '_', 'c', 'o', 'r', 'e'] : Str) self_package)) then
+  (let answer : Str := (answer ++ ([' ', ' ', '#', ' ', 't', 'y', 'p', 'e', ':', ' ', 'i', 'g', 'n', 'o', 'r', 'e'] : Str))
+  answer)
+  else
+  (answer)))
+
+-- gapic/schema/wrappers.py — Service.shortname
+def service_shortname (self_host : Str) : Str :=
+  (head0 (split self_host ['.']))
+
+-- gapic/schema/naming.py — Naming.long_name
+def naming_long_name (self_namespace : List Str) (self_name : Str) : Str :=
+  (join ([' '] : Str) (self_namespace ++ ([self_name] : List Str)))
+
+-- gapic/schema/naming.py — Naming.module_namespace
+def naming_module_namespace (self_namespace : List Str) : List Str :=
+  ((self_namespace).map fun i_ => (to_valid_module_name i_))
+
+-- gapic/schema/naming.py — Naming.warehouse_package_name
+def naming_warehouse_package_name (self__warehouse_package_name : Str) (self_namespace : List Str) (self_name : Str) : Str :=
+  if (truthy self__warehouse_package_name) then
+  (self__warehouse_package_name)
+  else
+  (let answer : List Str := (self_namespace ++ (split self_name [' ']))
+  (lower (join (['-'] : Str) answer)))
+
 -- gapic/schema/metadata.py — Address.__str__
 def address_str (self_module : Str) (self_parent : List Str) (self_name : Str) (module_alias : Str) (is_proto_plus_type : Bool) : Str :=
   if (truthy self_module) then
